@@ -226,22 +226,27 @@ func (p *Prog) writeClasses(fn *ssa.Function) *wset {
 // ---------- prover ----------
 
 type Prover struct {
-	p         *Prog
-	fn        *ssa.Function
-	loadVer   map[ssa.Instruction]string
-	fwd       map[ssa.Instruction]ssa.Value // load -> stored value it must see
-	linMemo   map[ssa.Value]*Lin
-	ranges    map[string][2]float64
-	assume    []Lin
-	nnAssume  map[string]bool // value keys assumed non-nil (contracts)
-	keyMemo   map[ssa.Value]string
-	inl       int
-	cur       *Cursor
-	verAt     func(at ssa.Instruction, cls aclass) string
-	fieldNN   map[string]bool      // "<field index>" of the receiver object assumed non-nil (field needs)
-	iLoads    map[string]ssa.Value // key of a load of cursor.I -> base pointer
-	dead      map[*ssa.BasicBlock]bool
-	deadEdges map[[2]*ssa.BasicBlock]bool
+	p          *Prog
+	fn         *ssa.Function
+	loadVer    map[ssa.Instruction]string
+	fwd        map[ssa.Instruction]ssa.Value // load -> stored value it must see
+	linMemo    map[ssa.Value]*Lin
+	ranges     map[string][2]float64
+	assume     []Lin
+	nnAssume   map[string]bool // value keys assumed non-nil (contracts)
+	keyMemo    map[ssa.Value]string
+	inl        int
+	cur        *Cursor
+	verAt      func(at ssa.Instruction, cls aclass) string
+	fieldNN    map[string]bool // "<field index>" of the receiver object assumed non-nil (field needs)
+	phiAtoms   map[string]*ssa.Phi
+	guardedNN  map[string]FlagInv // receiver fields non-nil behind a test of the flag (representation invariant)
+	payloadNN  map[string]bool    // interface parameters whose payload is non-nil whenever the interface is (K0 for wrapped receivers)
+	narrowDefs map[string]narrowDef
+	tableLoads map[string]tableLoad
+	iLoads     map[string]ssa.Value // key of a load of cursor.I -> base pointer
+	dead       map[*ssa.BasicBlock]bool
+	deadEdges  map[[2]*ssa.BasicBlock]bool
 }
 
 func NewProver(p *Prog, fn *ssa.Function) *Prover {
@@ -632,6 +637,20 @@ func (pr *Prover) opaque(v ssa.Value) Lin {
 	if lo, hi, ok := pr.intTypeRange(v.Type()); ok {
 		pr.atomRange(a, lo, hi)
 	}
+	if ph, ok := v.(*ssa.Phi); ok {
+		if pr.phiAtoms == nil {
+			pr.phiAtoms = map[string]*ssa.Phi{}
+		}
+		pr.phiAtoms[a] = ph
+	}
+	if ld, ok := v.(*ssa.UnOp); ok && ld.Op == token.MUL {
+		pr.noteTableLoad(a, ld)
+	}
+	if prm, ok := v.(*ssa.Parameter); ok && pr.fn.Parent() != nil {
+		if lo, hi, ok := pr.p.closureParamRange(pr.fn, paramIndex(pr.fn, prm)); ok {
+			pr.atomRange(a, lo, hi)
+		}
+	}
 	if ld, ok := v.(*ssa.UnOp); ok && ld.Op == token.MUL && pr.cur != nil {
 		if base, ok := pr.cur.isField(ld.X, pr.cur.I); ok {
 			pr.atomRange(a, 0, math.MaxInt64) // K3: offset >= 0
@@ -793,8 +812,16 @@ func (pr *Prover) linRaw(v ssa.Value) Lin {
 					return r // cannot wrap
 				}
 			}
-			// may wrap in a narrow type: opaque
-			return pr.opaque(v)
+			// may wrap in a narrow type: opaque, with a definition that holds
+			// wherever the facts exclude the wrap
+			a := pr.opaque(v)
+			if lo, hi, ok := pr.intTypeRange(x.Type()); ok {
+				if pr.narrowDefs == nil {
+					pr.narrowDefs = map[string]narrowDef{}
+				}
+				pr.narrowDefs[pr.key(v)] = narrowDef{r, lo, hi}
+			}
+			return a
 		}
 	case *ssa.Call:
 		if bi, ok := x.Call.Value.(*ssa.Builtin); ok {
@@ -892,6 +919,11 @@ func (pr *Prover) lenOf(x ssa.Value) Lin {
 			if f, ok := pr.fwd[y]; ok {
 				return pr.lenOf(f)
 			}
+			if fv, ok := y.X.(*ssa.FreeVar); ok {
+				if n, ok := pr.p.freeCellLen(fv); ok {
+					return linConst(n)
+				}
+			}
 		}
 	case *ssa.Call:
 		if sc := y.Call.StaticCallee(); sc != nil && fullName(sc) == "bytes.Repeat" {
@@ -973,11 +1005,42 @@ func (pr *Prover) condFacts(cond ssa.Value, truth bool) []Lin {
 			return []Lin{a.sub(b)}
 		case token.EQL:
 			return []Lin{a.sub(b), b.sub(a)}
+		case token.NEQ:
+			d := a.sub(b)
+			lo, hi := pr.rangeOfLin(d)
+			if lo >= 0 {
+				return []Lin{d.addConst(-1)}
+			}
+			if hi <= 0 {
+				return []Lin{d.scale(-1).addConst(-1)}
+			}
 		}
 	case *ssa.Call:
 		// tiny pure helper returning a comparison: inline
 		if fs, ok := pr.inlineCond(x, truth); ok {
 			return fs
+		}
+	case *ssa.Phi:
+		// a && b / a || b lowered to a boolean phi: when the phi has the value
+		// `truth`, control came through the one edge that can deliver it
+		var via []int
+		for i, e := range x.Edges {
+			if c, ok := e.(*ssa.Const); ok && c.Value != nil && c.Value.Kind() == constant.Bool {
+				if constant.BoolVal(c.Value) == truth {
+					via = append(via, -1) // a constant edge delivering it: no information
+				}
+				continue
+			}
+			via = append(via, i)
+		}
+		if len(via) == 1 && via[0] >= 0 {
+			i := via[0]
+			pred := x.Block().Preds[i]
+			out := pr.condFacts(x.Edges[i], truth)
+			for _, dc := range domConds(pred) {
+				out = append(out, pr.condFacts(dc.cond, dc.truth)...)
+			}
+			return out
 		}
 	}
 	return nil
@@ -1050,13 +1113,66 @@ func (pr *Prover) withRanges(facts []Lin, goal Lin) []Lin {
 
 // Prove: goal >= 0 at block b?
 func (pr *Prover) Prove(b *ssa.BasicBlock, goal Lin, extra ...Lin) bool {
+	return pr.proveDepth(b, goal, extra, 0)
+}
+
+func (pr *Prover) proveDepth(b *ssa.BasicBlock, goal Lin, extra []Lin, depth int) bool {
 	facts := append(pr.factsAt(b), extra...)
 	facts = append(facts, pr.phiFacts(goal, facts)...)
 	if pr.cur != nil {
 		facts = append(facts, pr.cursorFacts()...)
 	}
 	facts = append(facts, pr.postFacts(b)...)
-	return entails(pr.withRanges(facts, goal), goal)
+	facts = append(facts, pr.narrowFacts(facts, goal)...)
+	facts = append(facts, pr.tableFacts(facts, goal)...)
+	if entails(pr.withRanges(facts, goal), goal) {
+		return true
+	}
+	if depth >= 3 {
+		return false
+	}
+	// case split on a merge (non-loop) phi mentioned in the goal
+	for _, a := range goal.atoms() {
+		ph, ok := pr.phiAtoms[a]
+		if !ok || !ph.Block().Dominates(b) {
+			continue
+		}
+		if lp := loopContaining(pr.fn, ph.Block()); lp != nil && lp.Header == ph.Block() {
+			continue
+		}
+		all := true
+		for i, e := range ph.Edges {
+			pred := ph.Block().Preds[i]
+			if pr.Infeasible(pred) {
+				continue
+			}
+			sub := pr.lin(e)
+			g2 := substAtom(goal, a, sub)
+			var ex2 []Lin
+			for _, f := range facts {
+				ex2 = append(ex2, substAtom(f, a, sub))
+			}
+			ex2 = append(ex2, pr.factsAt(pred)...)
+			if !entails(pr.withRanges(ex2, g2), g2) && !pr.proveDepth(pred, g2, ex2, depth+1) {
+				all = false
+				break
+			}
+		}
+		if all {
+			return true
+		}
+	}
+	return false
+}
+
+func substAtom(l Lin, a string, by Lin) Lin {
+	k, ok := l.coef[a]
+	if !ok {
+		return l
+	}
+	r := l.clone()
+	delete(r.coef, a)
+	return r.add(by.scale(k))
 }
 
 // phiFacts: for loop-carried phis of the form phi[init, phi+c] with c >= 0,
@@ -1088,13 +1204,15 @@ func (pr *Prover) phiFacts(goal Lin, facts []Lin) []Lin {
 			for _, e := range phi.Edges {
 				el := pr.lin(e)
 				d := el.sub(me)
-				if d.isConst() {
+				if _, self := el.coef[k]; self && el.coef[k] == 1 {
+					// phi + d: monotone if d has a known sign
+					lo, hi := pr.rangeOfLin(d)
 					switch {
-					case d.c > 0 && mono >= 0:
+					case lo >= 0 && hi <= 0:
+					case lo >= 0 && mono >= 0:
 						mono = 1
-					case d.c < 0 && mono <= 0:
+					case hi <= 0 && mono <= 0:
 						mono = -1
-					case d.c == 0:
 					default:
 						okPhi = false
 					}
@@ -1160,6 +1278,15 @@ func (pr *Prover) NonNil(v ssa.Value, at *ssa.BasicBlock, depth int) bool {
 					return true
 				}
 			}
+			if fa, ok := x.X.(*ssa.FieldAddr); ok && len(pr.guardedNN) > 0 {
+				if inv, has := pr.guardedNN[fieldNeedKey(fa)]; has {
+					if _, isRecv := recvBase(pr.p, pr.fn, fa.X); isRecv {
+						if g, m, ok := guardOf(pr, at, fa.X); ok && g == inv.G && m == inv.Mask {
+							return true
+						}
+					}
+				}
+			}
 		}
 	case *ssa.Call:
 		if bi, ok := x.Call.Value.(*ssa.Builtin); ok && bi.Name() == "ssa:wrapnilchk" {
@@ -1180,6 +1307,12 @@ func (pr *Prover) NonNil(v ssa.Value, at *ssa.BasicBlock, depth int) bool {
 						return true
 					}
 				}
+			}
+		}
+		if nx, ok := x.Tuple.(*ssa.Next); ok && x.Index == 2 {
+			// a value delivered by ranging over a map: one of the values ever stored
+			if r, ok := nx.Iter.(*ssa.Range); ok && pr.p.mapValuesNonNil(r.X.Type()) {
+				return true
 			}
 		}
 		if lk, ok := x.Tuple.(*ssa.Lookup); ok && x.Index == 0 && lk.CommaOk {
@@ -1418,6 +1551,18 @@ func (pr *Prover) assumeContracts() {
 	// K0: receivers (first parameter of methods, bound receivers) are non-nil
 	if fn.Signature.Recv() != nil && len(fn.Params) > 0 {
 		pr.nnAssume[pr.key(fn.Params[0])] = true
+	}
+	// K0 for packets handed to exported functions through an mq interface: a
+	// non-nil interface value wraps a non-nil pointer
+	if fn.Parent() == nil && fn.Object() != nil && fn.Object().Exported() && fn.Signature.Recv() == nil {
+		for _, prm := range fn.Params {
+			if nt := namedOf(prm.Type()); nt != nil && nt.Obj().Pkg() == pr.p.Pkg && types.IsInterface(prm.Type()) {
+				if pr.payloadNN == nil {
+					pr.payloadNN = map[string]bool{}
+				}
+				pr.payloadNN[pr.key(prm)] = true
+			}
+		}
 	}
 	// K1: fill family — parameters ([]byte, int [, Ident]) result int: i >= 0
 	if isFillFamily(fn) {
@@ -1828,3 +1973,5 @@ func (pr *Prover) postFacts(b *ssa.BasicBlock) []Lin {
 	}
 	return out
 }
+
+// narrowFacts / tableFacts are filled in by narrow.go.
